@@ -124,14 +124,35 @@ def run_case(job):
                                                    propagator_derivatives=derivs)
         else:
             raise ValueError(mode)
+        if variant.get("warmup"):
+            # the same system object has been used before, with a process tensor of a different time step
+            from oqupy.process_tensor import SimpleProcessTensor
+            wpt = SimpleProcessTensor(d, dt=0.1)
+            wpt.set_mpo_tensor(0, np.eye(d * d).reshape(1, 1, d * d, d * d))
+            wpt.compute_caps()
+            oqupy.state_gradient(system=system, initial_state=rho0, target_derivative=tlin.copy(), process_tensors=[wpt],
+                                 parameters=np.array(pars[:2]) * 0.5, progress_type="silent")
         if variant.get("target") == "callable":
             target_fn = lambda rho: np.conj(rho) + 0.3 * tlin
             target_arg = lambda rho: target_fn(rho)
         else:
             target_fn = tlin
             target_arg = tlin.copy()
-        res = oqupy.state_gradient(system=system, initial_state=rho0, target_derivative=target_arg,
-                                   process_tensors=pts, parameters=pars, progress_type="silent")
+        if case["ctl"]:
+            # control operations between the steps: state_gradient has no control argument, so its two stages are
+            # called as state_gradient itself calls them
+            from oqupy.gradient import compute_gradient_and_dynamics, _chain_rule
+            ctrl = eng.build_control(case, DT, 0.0)
+            gprop, dyn = compute_gradient_and_dynamics(system=system, initial_state=rho0, target_derivative=target_arg,
+                                                       process_tensors=pts, parameters=pars, control=ctrl,
+                                                       progress_type="silent")
+            grad_real = _chain_rule(adjoint_tensor=gprop, dprop_dparam=system.get_propagator_derivatives(DT, pars),
+                                    propagators=system.get_propagators(DT, pars), num_steps=n, num_parameters=3,
+                                    progress_type="silent")
+            res = {"gradient": grad_real, "dynamics": dyn, "final_state": dyn.states[-1]}
+        else:
+            res = oqupy.state_gradient(system=system, initial_state=rho0, target_derivative=target_arg,
+                                       process_tensors=pts, parameters=pars, progress_type="silent")
     except Exception as ex:  # pylint: disable=broad-except
         import traceback
         return [{"what": "exception", "detail": "%s: %s" % (type(ex).__name__, str(ex)[:200]),
@@ -169,13 +190,19 @@ def run(ctx):
         ("shifting half steps (subclass, supplied derivatives), 2 envs",
          {"D": "3", "EDims": "<<3,3>>", "A0": "<<2,1>>", "N": "2", "M": "6", "SysGates": "{<<1,2>>,<<1,3>>}",
           "EnvGates": '{"SC","SW"}', "Dephase": "FALSE"}, "num=%d" % (200 if quick else 2000)),
+        ("1 env with control operations between the steps",
+         {"D": "2", "EDims": "<<2>>", "A0": "<<1>>", "N": "2", "M": "8", "SysGates": "{<<0,2>>,<<0,3>>}",
+          "EnvGates": '{"SC","CSP"}', "Dephase": "TRUE",
+          "Controls": ('{ {<<0,FALSE,5,1,"int">>}, {<<1,TRUE,2,1,"int">>}, {<<2,FALSE,5,1,"int">>}, {<<1,FALSE,3,1,"int">>}, '
+                       '{<<0,TRUE,2,1,"int">>, <<1,FALSE,5,2,"int">>}, {<<1,TRUE,5,1,"int">>, <<1,FALSE,2,2,"int">>} }')}, None),
         ("3 steps, 2 envs (sampled)", {"D": "2", "EDims": "<<2,2>>", "A0": "<<1,0>>", "N": "3", "M": "8",
                                        "SysGates": "{<<0,1>>,<<0,2>>,<<0,3>>}", "EnvGates": '{"SC","CSP","SW","CS"}',
                                        "Dephase": "TRUE"}, "num=%d" % (150 if quick else 2000)),
     ]
     jobs = []
     for label, consts, sim in configs:
-        c = dict(consts, Controls="{{}}", Devs="{}", FixedPlan="<< >>", Emit="TRUE")
+        c = dict({"Controls": "{{}}"}, **consts)
+        c.update(Devs="{}", FixedPlan="<< >>", Emit="TRUE")
         if sim:
             r = ctx.tlc("PTContract", CFG, label=label, constants=c, workers=1, simulate=sim,
                         extra=["-depth", "40", "-seed", str(ctx.seed + 3)])
@@ -183,7 +210,7 @@ def run(ctx):
             r = ctx.tlc("PTContract", CFG, label=label, constants=c, workers=4)
         seen = set()
         for idx, case in enumerate(r.cases):
-            hk = repr(case["plan"])
+            hk = repr((case["plan"], case["ctl"]))
             if hk in seen:
                 continue
             seen.add(hk)
@@ -191,7 +218,7 @@ def run(ctx):
             shifted = any(it[0] in ("h1", "h2") and it[2][0] != 0 for it in case["plan"])
             vs = [{"mode": "supplied", "target": "linear" if idx % 2 else "callable"}]
             if not shifted and (idx % (4 if quick else 2) == 0):
-                vs.append({"mode": "numeric", "target": "linear"})
+                vs.append({"mode": "numeric", "target": "linear", "warmup": idx % 8 == 0})
             if len(case["edims"]) == 2 and idx % 3 == 0:
                 vs.append({"mode": "supplied", "target": "linear", "order": [1, 0], "expect_differs": True})
             for v in vs:
@@ -201,7 +228,7 @@ def run(ctx):
     res = core.pmap(run_case, jobs, chunksize=4)
     for job, mm in zip(jobs, res):
         c = job["case"]
-        cid = {"d": c["d"], "edims": c["edims"], "n": c["n"], "plan": c["plan"], "variant": job["variant"]}
+        cid = {"d": c["d"], "edims": c["edims"], "n": c["n"], "plan": c["plan"], "ctl": c["ctl"], "variant": job["variant"]}
         ctx.case(cid, nontrivial=any(it[0] == "env" and it[3] != "I" for it in c["plan"]))
         for x in mm:
             ctx.violation("C08:%denv:%s:%s" % (len(c["edims"]), job["variant"]["mode"], x["what"]),
